@@ -62,6 +62,7 @@ PROFILES = {
     'policy_before': dict(action_none=0.4, guard_none=0.4, policy='before', flags=0.7, depth=(1, 3), pseudo=0.3, row_budget=12, state_internal=0.2, sm_internal=0.0, scripts=True),
     'policy_default': dict(action_none=0.4, guard_none=0.4, policy='default', flags=0.7, depth=(1, 3), pseudo=0.3, row_budget=12, state_internal=0.2, sm_internal=0.0, scripts=True),
     'blocking': dict(joint_block=0.6, blocking=1.0, depth=(1, 1), regions=(1, 3), flags=0.5, state_internal=0.0, sm_internal=0.0, completion=0.25, scripts=True),
+    'blocking_joint': dict(joint_block=1.0, both_blocking_kinds=True, blocking=1.0, depth=(1, 1), regions=(2, 3), flags=0.5, state_internal=0.0, sm_internal=0.0, completion=0.25, scripts=True),
     'queue': dict(scripts=True, depth=(1, 2), regions=(1, 2), completion=0.2, state_internal=0.2, sm_internal=0.0),
     'defer': dict(deferral=1.0, scripts=True, depth=(1, 1), regions=(1, 3), completion=0.0, state_internal=0.0, sm_internal=0.0),
     'defer_cond': dict(defer_cond=0.7, deferral=1.0, scripts=True, depth=(1, 1), regions=(1, 3), completion=0.0, state_internal=0.0, sm_internal=0.0),
@@ -71,9 +72,11 @@ PROFILES = {
     'defer_nested_outer': dict(outer_rows_on_deferred=True, defer_action=0.8, deferral=1.0, nested_deferral=True, scripts=True, depth=(2, 2), regions=(1, 2), completion=0.0, state_internal=0.0,
                          sm_internal=0.0, row_budget=12),
     'throw': dict(scripts=True, depth=(1, 2), regions=(1, 2), completion=0.2, state_internal=0.2, sm_internal=0.0),
-    'throw_after_action': dict(action_none=0.4, guard_none=0.4, scripts=True, depth=(1, 2), regions=(1, 2), completion=0.2, state_internal=0.2, sm_internal=0.0, policy='after_action'),
-    'throw_after_exit': dict(action_none=0.4, guard_none=0.4, scripts=True, depth=(1, 2), regions=(1, 2), completion=0.2, state_internal=0.2, sm_internal=0.0, policy='after_exit'),
-    'throw_before': dict(action_none=0.4, guard_none=0.4, scripts=True, depth=(1, 2), regions=(1, 2), completion=0.2, state_internal=0.2, sm_internal=0.0, policy='before'),
+    # flat on purpose: with a switch point before the entry phase a throw can leave a SUBmachine target "active" although it was
+    # never entered; what such a machine does next is described by no property
+    'throw_after_action': dict(action_none=0.4, guard_none=0.4, unique_rows=True, scripts=True, depth=(1, 1), regions=(1, 2), completion=0.2, state_internal=0.0, sm_internal=0.0, policy='after_action'),
+    'throw_after_exit': dict(action_none=0.4, guard_none=0.4, unique_rows=True, scripts=True, depth=(1, 1), regions=(1, 2), completion=0.2, state_internal=0.0, sm_internal=0.0, policy='after_exit'),
+    'throw_before': dict(action_none=0.4, guard_none=0.4, unique_rows=True, scripts=True, depth=(1, 1), regions=(1, 2), completion=0.2, state_internal=0.0, sm_internal=0.0, policy='before'),
 }
 
 
@@ -361,10 +364,12 @@ class Gen:
         events = [e['name'] for e in sp['events'] if not e.get('kleene')]
         for reg in m['regions']:
             cand = [s for s in reg[1:] if m['states'][s]['kind'] == 'simple']
-            if not cand or r.random() < 0.2:
+            if not cand or (r.random() < 0.2 and not self.p.get('both_blocking_kinds')):
                 continue
             s = r.choice(cand)
-            if r.random() < 0.5 or self.p.get('terminate_only'):
+            both = self.p.get('both_blocking_kinds')
+            nblk = sum(1 for x in m['states'].values() if x['kind'] in ('terminate', 'interrupt'))
+            if (both and nblk % 2 == 0) or (not both and r.random() < 0.5) or self.p.get('terminate_only'):
                 m['states'][s]['kind'] = 'terminate'
             else:
                 m['states'][s]['kind'] = 'interrupt'
@@ -407,7 +412,7 @@ class Gen:
             compl = [s for s in reg[1:] if any(rw['src'] == s and rw['ev'] is None for rw in m['table'])]
             rest = [s for s in reg[1:] if m['states'][s]['kind'] == 'simple']
             pick = other or compl or rest
-            if pick and r.random() < 0.85:
+            if pick and (r.random() < 0.85 or self.p.get('both_blocking_kinds')):
                 joint(ri, r.choice(pick))
 
     def ensure_sub_cycles(self, sp):
